@@ -11,7 +11,16 @@ Definition json_type_is (t : string) (d : json) : bool :=
   | JArr _ => String.eqb t "array"
   | JObj _ => String.eqb t "object"
   end.
-Definition json_eqb (a b : json) : bool := String.eqb (show_json a) (show_json b).
+(* equality of JSON values as `const` / `enum` need it: scalars by value, compound values by their key-sorted text *)
+Definition json_eqb (a b : json) : bool :=
+  match a, b with
+  | JNull, JNull => true
+  | JBool x, JBool y => Bool.eqb x y
+  | JNum x, JNum y => num_strict_eqb x y
+  | JStr x, JStr y => String.eqb x y
+  | JArr _, JArr _ | JObj _, JObj _ => String.eqb (show_json a) (show_json b)
+  | _, _ => false
+  end.
 
 Section JsValid.
   Variable resolve : string -> option json.      (* $ref -> schema *)
